@@ -196,7 +196,7 @@ theorem copy_ok (c : Case) (lf : Leaf) (s : IState) (hs : lf.rset = .frozen) (hg
 /-- what `step` reports for copy / deepcopy / pickle -/
 def copyObs (c : Case) (lf : Leaf) (s : IState) : StepObs :=
   { exc := (copyResult c lf s).1, snap := render c s, values := (copyResult c lf s).2,
-    flags := if (copyResult c lf s).1.isNone then resFlags lf else [] }
+    flags := if (copyResult c lf s).1.isNone then copyFlags c lf s else [] }
 
 /-- **one step meets the specification**: on a leaf whose methods resolve to the frozen pair every
     operation of the alphabet does what `stepOk` demands, judged against the rendering of the state before -/
@@ -207,14 +207,15 @@ theorem stepOk_step (c : Case) (lf : Leaf) (s : IState) (op : Op)
   have hcopy : ∀ o : StepObs, o = copyObs c lf s → c.gs ≠ .optOut →
       (o.snap == render c s &&
         (if (fieldVals c (render c s)).all (·.2.isSome) then
-          o.exc == none && o.values == some (fieldVals c (render c s)) && o.flags.contains "fresh" && o.flags.contains "frozen"
+          o.exc == none && o.values == some (fieldVals c (render c s)) && o.flags.contains "fresh" && o.flags.contains "frozen" &&
+          (!hashReady c (render c s) || o.flags.contains "reshash")
          else true)) = true := by
     intro o ho hg
     subst ho
     unfold copyObs
     by_cases hall : (fieldVals c (render c s)).all (·.2.isSome) = true
     · rw [if_pos hall, copy_ok c lf s hs hg hall]
-      simp [resFlags_frozen lf hs]
+      cases hh : hashReady c (render c s) <;> simp [copyFlags, resFlags_frozen lf hs, hh]
     · rw [if_neg hall]; simp
   cases op with
   | set n v =>
